@@ -122,6 +122,7 @@ Definition b2a_base58 (s : bytes) : outcome pystr :=
   | OutOfFuel => OutOfFuel
   end.
 
+(* `try: b = s.encode("utf8") except UnicodeEncodeError: raise EncodingError(...)` *)
 Definition a2b_base58 (s : pystr) : outcome bytes :=
   match utf8_encode s with
   | Ret b =>
@@ -130,6 +131,7 @@ Definition a2b_base58 (s : pystr) : outcome bytes :=
     | Raise e => Raise e
     | OutOfFuel => OutOfFuel
     end
+  | Raise E_VALUE => Raise E_ENCODING
   | e => e
   end.
 
